@@ -431,6 +431,34 @@ Proof.
     rewrite (enp_run_at b k' Hk'), Hs. reflexivity.
 Qed.
 
+(* ---- FindAllStringIndex, up to its first scan ---- *)
+
+(* the rune slice is the decoded input and the first scan of findAllRunesIndex starts where it finds
+   what a scan from the default start finds (the rest of the iteration only depends on that match: C07) *)
+Theorem enp_find_all_string_start b :
+  enp_in_range -> enp_flt_hyp ->
+  (en_find_all_string_start rtl flt b = Ok None /\
+   search (runes_of b) (Z.of_nat (enp_default_start b)) = None) \/
+  (exists k', (k' <= length (decode b))%nat /\
+     en_find_all_string_start rtl flt b = Ok (Some (runes_of b, Z.of_nat k')) /\
+     search (runes_of b) (Z.of_nat k') = search (runes_of b) (Z.of_nat (enp_default_start b))).
+Proof.
+  intros HR HH. unfold en_find_all_string_start, en_match_start.
+  replace (zlen b <? -1) with false by (pose proof (enb_zlen_nonneg b); lia).
+  cbn [Z.leb Z.compare andb Z.ltb].
+  destruct (enp_default_boundary b) as [Hd Hdl]. rewrite Hd.
+  destruct (enp_prefix_candidate b _ HR HH Hdl) as [[Hc Hs]|(k' & Hk' & Hc & Hs)]; rewrite Hc; cbn [bind negb].
+  - left. split; [reflexivity|exact Hs].
+  - right. exists k'. split; [exact Hk'|]. split; [|exact Hs].
+    destruct (Z.of_nat (boundary b k') =? 0) eqn:E0.
+    + assert (k' = 0%nat).
+      { destruct k' as [|k'']; [reflexivity|]. pose proof (enb_boundary_lt b 0 (S k'') ltac:(lia) Hk') as L.
+        rewrite boundary_0 in L. lia. }
+      subst k'. reflexivity.
+    + unfold en_decode_with_start. replace (Z.of_nat (boundary b k') <? 0) with false by lia.
+      rewrite (enb_runes_and_index_boundary b k' Hk'). replace (Z.of_nat k' <? 0) with false by lia. reflexivity.
+Qed.
+
 (* ---- MatchString ---- *)
 
 Variable search_quick : list Z -> Z -> bool.
@@ -563,4 +591,89 @@ Proof.
   intros Hc. destruct (enp_new_filter_inv c f Hc) as (o & Ho & Hr & Hs & Hg & Hsel).
   destruct (enp_select_ok o f (enp_guard_of o Hg) Hsel) as [Hok Hfact].
   split; [exact Hr|]. split; [exact Hs|]. split; [exact Hok|]. exists o. split; [exact Ho|exact Hfact].
+Qed.
+
+(* ================================================================================================
+   Where the engine hypotheses come from: a scan whose attempts do not read the scan start
+   ================================================================================================ *)
+
+(* The accelerator-free scan (runner.go:116-228 without finder; Model/Scan.naive_scan, which C03 proves
+   equal to the accelerated scan): attempt the program at s, s+1, ..., len and report the first success.
+   When one attempt, anchored at q, does not depend on where the scan started — the only channel is
+   Runtextstart, read by the Start (\G) instruction alone — the scan satisfies enp_in_range and
+   enp_start_indep.  (With \G the attempt takes the start as a further argument and the second
+   property fails: EntryExamples.enx_start_indep_needed.) *)
+Section ScanEngine.
+Variable M : Type.
+Variable m_index : M -> Z.
+Variable attempt : list Z -> nat -> option M.
+Hypothesis attempt_index : forall r q m, attempt r q = Some m -> m_index m = Z.of_nat q.
+
+Fixpoint enp_scan_from (r : list Z) (fuel q : nat) : option M :=
+  match fuel with
+  | O => None
+  | S f => match attempt r q with Some m => Some m | None => enp_scan_from r f (S q) end
+  end.
+
+Definition enp_scan (r : list Z) (s : Z) : option M :=
+  enp_scan_from r (S (length r) - Z.to_nat s) (Z.to_nat s).
+
+Lemma enp_scan_from_some r : forall fuel q m,
+  enp_scan_from r fuel q = Some m ->
+  exists x, (q <= x < q + fuel)%nat /\ attempt r x = Some m /\ forall y, (q <= y < x)%nat -> attempt r y = None.
+Proof.
+  induction fuel as [|f IH]; intros q m H; [discriminate H|].
+  cbn [enp_scan_from] in H. destruct (attempt r q) as [m'|] eqn:E.
+  - injection H as <-. exists q. split; [lia|]. split; [exact E|]. intros y Hy. lia.
+  - destruct (IH (S q) m H) as (x & H1 & H2 & H3). exists x. split; [lia|]. split; [exact H2|].
+    intros y Hy. destruct (Nat.eq_dec y q) as [->|]; [exact E|]. apply H3. lia.
+Qed.
+
+Lemma enp_scan_from_none r : forall fuel q,
+  enp_scan_from r fuel q = None -> forall y, (q <= y < q + fuel)%nat -> attempt r y = None.
+Proof.
+  induction fuel as [|f IH]; intros q H y Hy; [lia|].
+  cbn [enp_scan_from] in H. destruct (attempt r q) eqn:E; [discriminate H|].
+  destruct (Nat.eq_dec y q) as [->|]; [exact E|]. apply (IH (S q) H). lia.
+Qed.
+
+Lemma enp_scan_from_first r : forall fuel q x m,
+  (q <= x < q + fuel)%nat -> attempt r x = Some m -> (forall y, (q <= y < x)%nat -> attempt r y = None) ->
+  enp_scan_from r fuel q = Some m.
+Proof.
+  induction fuel as [|f IH]; intros q x m Hx Hp Hn; [lia|].
+  cbn [enp_scan_from]. destruct (Nat.eq_dec x q) as [->|Hne]; [rewrite Hp; reflexivity|].
+  rewrite (Hn q ltac:(lia)). apply (IH (S q) x m); [lia|exact Hp|]. intros y Hy. apply Hn. lia.
+Qed.
+
+Lemma enp_scan_from_all_none r : forall fuel q,
+  (forall y, (q <= y < q + fuel)%nat -> attempt r y = None) -> enp_scan_from r fuel q = None.
+Proof.
+  induction fuel as [|f IH]; intros q H; [reflexivity|].
+  cbn [enp_scan_from]. rewrite (H q ltac:(lia)). apply IH. intros y Hy. apply H. lia.
+Qed.
+
+Theorem enp_scan_in_range : enp_in_range M m_index enp_scan.
+Proof.
+  intros r s m Hs H. unfold enp_scan in H. unfold zlen in *.
+  destruct (enp_scan_from_some r _ _ _ H) as (x & H1 & H2 & _). rewrite (attempt_index r x m H2). lia.
+Qed.
+
+Theorem enp_scan_start_indep : enp_start_indep M m_index enp_scan.
+Proof.
+  intros r s s' Hs Hs' Hm. unfold enp_scan in *. unfold zlen in *.
+  destruct (enp_scan_from r (S (length r) - Z.to_nat s) (Z.to_nat s)) as [m|] eqn:E.
+  - specialize (Hm m eq_refl).
+    destruct (enp_scan_from_some r _ _ _ E) as (x & H1 & H2 & H3). rewrite (attempt_index r x m H2) in Hm.
+    apply (enp_scan_from_first r _ _ x m); [lia|exact H2|]. intros y Hy. apply H3. lia.
+  - apply enp_scan_from_all_none. intros y Hy. apply (enp_scan_from_none r _ _ E). lia.
+Qed.
+
+End ScanEngine.
+
+Theorem enp_scan_engine (M : Type) (m_index : M -> Z) (attempt : list Z -> nat -> option M) :
+  (forall r q m, attempt r q = Some m -> m_index m = Z.of_nat q) ->
+  enp_in_range M m_index (enp_scan M attempt) /\ enp_start_indep M m_index (enp_scan M attempt).
+Proof.
+  intros H. split; [exact (enp_scan_in_range M m_index attempt H)|exact (enp_scan_start_indep M m_index attempt H)].
 Qed.
